@@ -19,6 +19,7 @@ let () =
         | id :: op :: args ->
           let r = (try dispatch op args with
                    | Stack_overflow -> "model-stack-overflow"
+                   | Conv.Bad_descr "float" -> "unmodelled"   (* a float literal outside what the model's decimal parser covers *)
                    | Failure m -> "model-failure:" ^ m) in
           print_string id; print_char '\t'; print_string r; print_char '\n'
         | _ -> ()
